@@ -102,6 +102,7 @@ def build_module(shape_label, P, conc_label, second_shape=None):
         # templated static method returning the class itself
         D.static(single(T('This')), 'fromQ', [arg(S2, 'a')], tpl=[D.tparam(Q, [mconc])]),
         D.method(single(T('This', 1, '&')), 'selfQ', [arg(S2, 'a')], tpl=[D.tparam(Q, [mconc])]),
+        D.dunder('contains', [arg(S, 'key')]), D.dunder('len'),
     ]
     if S['t'] is None:
         members.append(D.method(pair(S, i), 'pr1', []))
@@ -151,6 +152,7 @@ LOCUS = {  # readable context names for the deterministic member positions above
     '.static[1].r[0]': 'method-param/static-return', '.static[1].a[0].t': 'method-param/static-arg',
     '.static[1].a[1].t': 'class-param/templated-static-arg',
     '.ctor[1].a[0].t': 'method-param/ctor-arg', '.ctor[1].a[1].t': 'class-param/templated-ctor-arg',
+    '.dunder_args[0].a[0].t': 'class-param/dunder-arg',
     '.method[3].r[0]': 'class-param/pair-slot1', '.method[4].r[1]': 'class-param/pair-slot2',
 }
 
